@@ -770,3 +770,28 @@ ENGINES = ["E1-pyvc", "E3-E4-rtc"]
 LEVEL_TEXT = 'Mixed. Proved (E1-term, over callee contracts): is_ppt is is_positive_semidefinite(partial_transpose(mat, [sys-1], dim), atol=tol) and is_npt its negation with the same arguments. The soundness of is_separable / has_symmetric_extension / in_separable_ball verdicts is a bounded run-time contract check with ground truth by construction and return-site coverage.'
 EXPLANATION = LEVEL_TEXT
 TECHNIQUE = "VCs from the real AST discharged by z3 (index contract on the amplitude matrix; formula contracts over uninterpreted library operations) + bounded run-time-checked contracts on the real functions"
+
+
+# =============================================================================================
+# frame coverage shared by all properties (E2 obligations for every public function of the anchor files + run-time frame cases)
+# =============================================================================================
+from props import frame_all as _fa  # noqa: E402
+from props.frame_common import frame_generic as _fg, frame_object as _fo  # noqa: E402
+
+CLAUSES.setdefault("frame.generic", _fg)
+CLAUSES.setdefault("frame.object", _fo)
+_cases_before_frames = cases
+_prove_before_frames = globals().get("prove")
+
+
+def cases(tier, seed):  # noqa: F811
+    return _cases_before_frames(tier, seed) + _fa.frame_cases(ID, seed)
+
+
+def prove(tier, seed):  # noqa: F811
+    from vt.pyvc.termproofs import merge
+
+    b = _fa.prove_frames(ID, lambda s: _fa.frame_cases(ID, s))(tier, seed)
+    if _prove_before_frames is None:
+        return b
+    return merge(_prove_before_frames(tier, seed), b)
